@@ -106,6 +106,25 @@ def tests():
         "i = (int)d + (int)f;", "d = (double)i / 2;", "u = (unsigned)-1;", "c = (char)300;", "i = -(int)u;", "i = (i);", "i = ((i) + (1));", "(i) = 1;", "(*p) = 1;", "(a)[1] = 2;", "(st).m = 1;", "(ps)->m = 2;", "(st.arr)[0] = 1;",
         "i = i;", "i = +i;", "i = - -i;", "i = !!i;", "i = ~~i;", "i = -!i;", "i = *&*&i;", "i = sizeof sizeof i;", "i = i++ + ++i;", "i = (i = 1);", "i = i = 2;", "d = i = c;", "p = q = a;", "i += i += 1;",
     ]
+    # third pass: pointers to arrays, arrays of pointers / of function pointers, functions returning pointers / structures, qualified
+    # operands, compound literals, comma / conditional chains, casts between pointer types
+    extra2_stmts = [
+        "m2[1];", "*m2[1];", "m2[i][c];", "(*m2)[2];", "*(m2[1] + 1);", "*(*(m2 + 1) + 2);", "sizeof m2 / sizeof m2[0];", "&m2[1][2];", "p = m2[1];", "p = *m2;", "p = &m2[0][0];", "i = m2[1] - m2[0];", "m2[0] == p;", "m2[1] + 1 == p;",
+        "{ int (*pa)[3] = m2; pa; }", "{ int (*pa)[3] = &m2[1]; (*pa)[0] = 1; }", "{ int (*pa)[3] = m2; pa[1][2] = 0; }", "{ int (*pa)[3] = m2 + 1; pa; }", "{ int *ap[2]; ap[0] = p; *ap[1] = 2; }", "{ int *ap[2]; ap[1] = &i; **ap = 3; }",
+        "{ int (*fa[2])(int); fa[0] = f1; fa[1] = fp; fa[0](1); }", "{ int (*fa[2])(int); (*fa[1])(2); i = fa[0](3) + 1; }", "{ int (**pfp)(int) = &fp; (*pfp)(1); (**pfp)(2); }", "{ struct S sa[2]; sa[0] = st; sa[1].m = 2; ps = sa; ps = &sa[1]; }",
+        "*fpr();", "fpr()[1] = 2;", "*fpr() += 1;", "p = fpr() + 1;", "i = *fpr() * 2;", "fst().m;", "i = fst().arr[1];", "fst().o + 1.0;", "st = fst();", "fs(fst());", "i = fma().cell[1][2];", "fmm(ma);", "fum(uma);", "d = fma().m[1][2];",
+        "ci + 1;", "i = ci;", "i = vi;", "vi = 1;", "vi++;", "vi += ci;", "i = ci * vi;", "d = cd + 1;", "c = cc;", "p = kp;", "*kp = 1;", "i = *kp;", "i = **kpp;", "kp[1] = 2;", "cp = kp;", "i = *cp + ci;", "ccp = &cc;", "c = *ccp;", "cvp = &ci;", "cvp = kp;",
+        "(struct S){ 1 };", "i = (struct S){ 1, 'a' }.m;", "st = (struct S){ .m = 2 };", "p = (int[]){ 1, 2, 3 };", "i = (int[2]){ 4, 5 }[1];", "fs((struct S){ 0 });", "fp1((int[3]){ 0 });", "ps = &(struct S){ 1 };", "i = (int){ 7 };", "d = (double){ 1 } + 2;",
+        "i = (1, 2, 3);", "i = (c, d, i);", "(void)(i, p);", "p = (i, a);", "i = i ? c ? 1 : 2 : 3;", "i = i ? 1 : c ? 2 : 3;", "d = i ? 1 : c ? 2.0 : 3;", "p = i ? a : c ? p : q;", "st = i ? st : c ? st2 : ts;",
+        "pc = (char *)p;", "p = (int *)pc;", "pd = (double *)vp;", "ps = (struct S *)pu;", "fp = (int (*)(int))fpv;", "fpv = (void (*)(void))f1;", "pp = (int **)vp;", "p = (int *)(long)i;", "l = (long)p;", "ull = (unsigned long long)vp;", "p = (int *)0;", "fp = (int (*)(int))0;",
+        "vp = (void *)(long)0;", "cp = (const int *)vp;", "p = (int *)cp;", "pc = (char *)ccp;",
+        "i = a[0] + a[1] * a[2] - a[3];", "i = st.m + ps->m + un.m + pu->m;", "d = st.o * ps->o / un.o;", "i = (st.arr[0] << 2) | (ps->arr[1] & 3);", "i = !st.m && ps->next || pu;", "i = p[0] < q[1] == (c != d);", "i = -a[1] + +a[2] - ~a[3];", "i = sizeof a / sizeof *a;",
+        "i = f1(f1(f1(1)));", "i = f1(a[f1(0)]);", "i = f1(st.m) + f1(ps->arr[f1(1)]);", "d = fd(fd(1) + f1(2));", "i = g2(f1(1), fd(2));", "i = fv(1, f1(2), fd(3), p, st);", "i = (i ? f1 : fp)(2);", "i = (*(i ? &f1 : fp))(3);", "fvoid(), fvoid();", "i = (fvoid(), 1);",
+        "b = 1; b = 0; b = i; b = d; b = c; b = !b; b = b && b; b = i < 2; b = p != q; i = b + b; i = b << 1; i = -b; i = ~b; i = b ? 1 : 2; i = a[b];",
+        "ll = i; ll = ull; ull = ll; l = ul; ul = l; s = c; us = s; uc = sc; sc = uc; i = ll; c = ll; f = ll; ld = ull; ll = ld;",
+        "ll + ull; l * ul; s + us; sc - uc; c * sc; i / ll; u % ull; ull << s; ll >> uc; ul & us; l ^ ll; ull | c; ll < u; ull == i; l != ul;",
+        "f + d; d * ld; ld / f; f - i; ld + ull; d < f; ld == i; f != c; -ld; +f; !ld; f ? 1 : 2; i = f; i = ld; f = d; d = ld; ld = f;",
+    ]
     call_stmts = [
         "f0();", "f1(1);", "f1(i);", "f1(c);", "f1(d);", "f1('a');", "f1(K1);", "f1(f0());", "f1(f1(1));", "g2(1, 2.0);", "g2(i, i);", "g2(c, f);", "fv(1);", "fv(1, 2);", "fv(1, 2.0, \"s\", p);", "fv(i, c, s, f);", "fvoid();", "fd(1);", "fd(f);", "fd(fd(d));",
         "fp1(p);", "fp1(a);", "fp1(&i);", "fp1(0);", "fp1(vp);", "fp1(tp);", "fp1(&st.m);", "fp1(st.arr);", "fvp(p);", "fvp(pc);", "fvp(vp);", "fvp(0);", "fvp(&st);", "fvp(ps);", "fvp(a);", "fvp(\"s\");", "fcc(pc);", "fcc(ccp);", "fcc(\"lit\");", "fcc(ca);", "fcc(0);",
@@ -123,7 +142,7 @@ def tests():
             "{ const int k = 1; i = k; }", "{ int k; k = i; (void)k; }", "{ _Static_assert(1, \"m\"); }", "{ int k[3]; k[0] = 1; }", "{ int n = 3; int vla[n]; vla[0] = 1; }", "{ char k = 'x'; int m = k; m; }", "{ unsigned k = 1; k << 2; }", "{ long long k = 1; k + 1; }",
             "{ float k = 1; k * 2; }", "{ double k = 1, m = 2; k / m; }", "{ int k = 1, *m = &k; *m; }", "{ int k = sizeof(int[3]); k; }", "i = ((i));", "i = (int)(char)(long)d;", "d = (double)(int)d;", "(void)0;", "(void)(i + 1);", "i = __func__[0];", "i = (int)sizeof(st);",
             "ti = ti + 1;", "ti++;", "ti = i;", "i = ti;", "ti << 1;", "ti % 2;", "tc = 'a';", "tc + 1;", "td = 1.5;", "td * 2;", "td = ti;", "{ T1 k = 1; T2 m = k; T3 n = m; n; }", "ti ? tc : td;", "a[ti];", "p + ti;", "f1(ti);", "{ T3 *ptx = &ti; *ptx; }", "p = &ti;", "{ T3 at[2]; at[0] = 1; }"]
-    for sgroup, name in ((ptr_stmts, "ptr"), (struct_stmts, "struct"), (call_stmts, "call"), (null_stmts, "null"), (extra_stmts, "extra"), (misc, "misc")):
+    for sgroup, name in ((ptr_stmts, "ptr"), (struct_stmts, "struct"), (call_stmts, "call"), (null_stmts, "null"), (extra_stmts, "extra"), (extra2_stmts, "extra2"), (misc, "misc")):
         for s in sgroup:
             out.append(("%s:%s" % (name, s), s))
     # ---- composition: every producer of a value class inside every consumer that needs that class (a wrong RESULT TYPE of an accepted
